@@ -26,8 +26,13 @@ def port_offsets(repo, anchor, methods):
         if not tcp or tcp[0] is not True:
             continue
         for e in p.events:
+            term = e.term
+            addr = None
             if e.kind == 'call' and e.term.split('.')[-1] in methods and e.args:
                 addr = e.value.args[0]
+            elif e.kind == 'call' and len(getattr(e.value, 'args', [])) == 2 and isinstance(e.value.args[0], ast.Attribute) and e.value.args[0].attr in methods:
+                term, addr = U(e.value.args[0]), e.value.args[1]          # attach(sock.bind, addr): the socket method is handed to a wrapper together with the address
+            if addr is not None:
                 if not isinstance(addr, ast.JoinedStr):
                     continue
                 off = None
@@ -37,7 +42,7 @@ def port_offsets(repo, anchor, methods):
                         m = re.search(r'\+ (\d+)$', t)
                         if 'int(' in t or 'TCP_DEFAULT_PORT' in t or 'port' in t or re.search(r'\d{4}', t):
                             off = int(m.group(1)) if m else 0
-                kind = 'PUSH/PULL' if ('zmq.PULL' in e.term or 'zmq.PUSH' in e.term) else 'PUB/SUB' if ('zmq.PUB' in e.term or 'zmq.SUB' in e.term) else e.term
+                kind = 'PUSH/PULL' if ('zmq.PULL' in term or 'zmq.PUSH' in term) else 'PUB/SUB' if ('zmq.PUB' in term or 'zmq.SUB' in term) else term
                 if off is not None:
                     out.setdefault(kind, set()).add(off)
     return mod, fn, out, consts
